@@ -274,6 +274,30 @@ Section AuthThm.
       + rewrite Hc, user_of_name_complete. reflexivity.
   Qed.
 
+  (* issued at clock t (iat = whole seconds of t, or none without a real date), verified at clock t':
+     accepted whenever  -skew <= t' - t <= skew - 7/8 s  (the truncation of iat to whole seconds costs up to 7/8 s) *)
+  Lemma fresh_issued_now :
+    forall t8 t8', - (8 * skew) <= t8' - t8 <= 8 * skew - 7 -> fresh t8' (issue_iat t8).
+  Proof.
+    intros t8 t8' H. unfold issue_iat. destruct (has_real t8); [|exact I]. cbn [fresh].
+    pose proof (Z.div_mod t8 8 ltac:(lia)). pose proof (Z.mod_pos_bound t8 8 ltac:(lia)). lia.
+  Qed.
+
+  Theorem grant_complete_issued_now :
+    forall eh h t8 t8' hdr u key,
+      issuedb "consumer" (Some (user_name u)) key (issue_iat t8) hdr = true ->
+      get_hash h u = Some key -> key <> "" ->
+      - (8 * skew) <= t8' - t8 <= 8 * skew - 7 ->
+      grant h t8' hdr = Some u /\ prepare eh h t8' (Some hdr) = level_of u.
+  Proof. intros. eapply grant_complete; eauto using fresh_issued_now. Qed.
+
+  Theorem device_complete_issued_now :
+    forall username key t8 t8' hdr,
+      issuedb "device" username key (issue_iat t8) hdr = true -> key <> "" ->
+      - (8 * skew) <= t8' - t8 <= 8 * skew - 7 ->
+      parse_auth_header t8' hdr "device" (fun _ => Some key) false = RGrant (username_claim username).
+  Proof. intros. eapply parse_complete; eauto using fresh_issued_now. discriminate. Qed.
+
   (* device-origin tokens (webhooks: no usr; reverse: usr = device id) verified with a constant key, usr not required *)
   Theorem device_complete :
     forall username key iat hdr now8,
